@@ -15,7 +15,7 @@ def wb : Mode → List Instr → Prop
   | .out, i :: r =>
     match i with
     | .lock => wb .inn r
-    | .act _ | .joinAndFree _ | .jaLoop | .create _ _ _ _ | .createRet _ | .joinM _ | .joinU _ | .detach _ | .sleepUntil _ | .yield | .onceCall _ | .libInit
+    | .act _ | .joinAndFree _ | .jaLoop | .create _ _ _ _ | .createRet _ | .joinM _ | .joinU _ | .detach _ | .sleepUntil _ | .yield | .onceCall _ | .libInit | .logName
     | .allocW _ _ | .freeW _ _ | .logLaunch _ _ | .logJoin _ | .logCount | .jaBegin | .jaInit | .jaRet _ _ => wb .out r
     | _ => False
   | .inn, i :: r =>
@@ -180,7 +180,7 @@ theorem mutexInv_thr (P : Prog) (s s' : State) (t : Nat) (h : step P s t = some 
           rw [hc.nocode j (Or.inl h0)] at this
           exact wb_nil_out this
         rw [exec_mode_other P s s' t i rest hw he j hj hout]
-        rcases oth j hj with h3 | h3 | ⟨h0, _, h3⟩ | ⟨h0, h3⟩
+        rcases oth j hj with h3 | h3 | ⟨h0, _, _, h3⟩ | ⟨h0, h3⟩
         · rw [h3]; exact hi.wbAll j
         · rw [h3]; exact hi.wbAll j
         · rw [h3, hout h0]; trivial
@@ -192,7 +192,7 @@ theorem mutexInv_thr (P : Prog) (s s' : State) (t : Nat) (h : step P s t = some 
         · rw [h1] at hs'
           rcases hs with hs | hs | hs <;> rw [hs] at hs' <;> simp at hs'
         · rw [h1] at hs'; simp at hs'
-      · rcases oth j hj with h3 | h3 | ⟨_, _, h3⟩ | ⟨h0, h3⟩
+      · rcases oth j hj with h3 | h3 | ⟨_, _, _, h3⟩ | ⟨h0, h3⟩
         · rw [h3] at hs' ⊢; exact hi.fin j hs'
         · rw [h3] at hs' ⊢; exact hi.fin j hs'
         · rw [h3]
